@@ -121,6 +121,14 @@ class Agg:
             st = self.ob.check(name, ex.decls, ex.side, "(or " + " ".join(bad_terms) + ")", describe)
         item = self.ob.items[-1]
         item["paths"], item["cut_by_unroll_bound"], item["unroll"] = len(ex.paths), ex.cut, ex.unroll
+        # vacuity guard on the obligation's own counter: descriptions state how many visits / comparisons / evaluations the rule was
+        # checked on ("(12 rule visits)"); zero means the code was restructured so that the rule no longer talks about anything
+        # (this happened once: a collect() between a collection and its loop). Counters of things that SHOULD be absent are exempt.
+        m0 = re.search(r"\((\d+) [a-z`]", describe)
+        if st == "proved" and m0 and int(m0.group(1)) == 0 and not any(w in describe[m0.start():m0.start() + 60] for w in ("unwrap", "delegations")):
+            item["status"] = "inconclusive"
+            item["describe"] = "VACUOUS (the rule was checked on 0 occurrences: the code no longer has the shape the obligation reads) - " + describe
+            return None
         if st == "proved" and witness:
             # vacuity witness: the side conditions are consistent and at least one Ok-returning path is feasible
             oks = [pc_term(p.pc) for p in ex.paths if p.outcome == "return" or p.outcome.startswith("stop")]
